@@ -175,6 +175,12 @@ pub fn run(ctx: &Ctx) -> Report {
             1 => rng.range(n, 3 * n + 3),
             _ => rng.range(10, 2000),
         };
+        // one history in forty is longer than 2^16 inputs (a maintenance step that runs every 65 536 inputs
+        // must not leave anything of the far past behind either)
+        let plen = if r % 40 == 7 && n <= 64 { 66_000 + rng.range(0, 3000) } else { plen };
+        if plen > 60_000 {
+            rep.count("pairs.history_longer_than_2^16");
+        }
         let bars = !kind.has_scalar() || (*kind == Kind::Fast && r % 2 == 0);
         let (prefix, suffix_ext): (Vec<In>, Vec<In>) = if bars {
             let mut pre = BarGen::new(BAR_STYLES[r % BAR_STYLES.len()], level / 30.0, rng.u64()).take(plen);
